@@ -173,6 +173,15 @@ def generate(rng, tier, index, seed):
         expr, cyc = gen_graph(rng.fork("data"))
     else:
         expr, cyc = gen_tree(rng.fork("data"), rng.range(1, 6)), False
+        if rng.chance(1, 3):
+            # plus a run of atoms whose external syntax has value-specific paths: characters at the edges of every name / hex-width /
+            # encoding-width class, symbols that look like other tokens, numbers at representation edges
+            er = rng.fork("edges")
+            edge_chars = [0x0, 0x7, 0x8, 0x9, 0xa, 0xd, 0x1b, 0x1f, 0x20, 0x7e, 0x7f, 0x80, 0xa0, 0xff, 0x100, 0x7ff, 0x800, 0xfff, 0x1000,
+                          0xd7ff, 0xe000, 0xfffd, 0xfffe, 0xffff, 0x10000, 0x10001, 0xfffff, 0x100000, 0x10fffe, 0x10ffff]
+            edge_syms = ['"`a"', '"`"', '".5"', '"."', '".."', '"+1"', '"-"', '"1+"', '"+i"', '"-inf.0"', '"+nan.0x"', '"#foo"', '"a|b"', '""', '"a b"', '"A"', '"1/2"', '"1e5"', '","', '"\\""']
+            atoms = ["(integer->char %d)" % c for c in er.sample(edge_chars, 10)] + ["(string->symbol %s)" % y for y in er.sample(edge_syms, 4)]
+            expr = "(list %s (vector %s))" % (expr, " ".join(atoms))
     writer = rng.choice(["write", "write-shared"]) if cyc else rng.choice(["native-write", "write", "write-shared", "write-simple"])
     cfg = rng.weighted([("sim", 4), ("tiny", 5), ("asan", 1)])
     okind = rng.choice(["cookie", "fd", "custom"])
